@@ -659,6 +659,8 @@ def m_str(x=''):
                 raise OutOfSubset('str() of model class %s has no model' % x.cls)
             return m(x)
         x = r
+        if isinstance(x, (SStr, str)):
+            return x
     if isinstance(x, SInt):
         return mk_str(z3.IntToStr(x.t)) if False else _int_to_str(x)
     if isinstance(x, Sym):
